@@ -4,8 +4,76 @@
 
 package dsd
 
+// the serialization format that is actually used for a requested format
+//@ spec isSer(f uint8) bool = f == 1 || f == 67 || f == 71 || f == 74 || f == 77 || f == 89
+//@ spec resolvedSer(f uint8) uint8 = f == 0 ? DefaultSerializationFormat : f
+
+//@ func ValidateSerializationFormat
+//@   ensures ok == (format == 0 || isSer(format))
+//@   ensures ok ==> validatedFormat == resolvedSer(format)
+//@   ensures !ok ==> validatedFormat == 0
+
+//@ func ValidateCompressionFormat
+//@   ensures ok == (format == 0 || format == 90)
+//@   ensures ok ==> validatedFormat == (format == 0 ? DefaultCompressionFormat : format)
+//@   ensures !ok ==> validatedFormat == 0
+
+//@ func loadFormat
+//@   ensures err == nil ==> hasVarint(data) && read == termL(data) + 1 && read < len(data) && uint64(format) == dec(data, read)
+//@   ensures err != nil ==> format == 0 && read == 0
+
 // Load writes only into the object graph reachable from t; the input bytes are
 // left untouched (decoding targets do not alias the input).
 //@ func Load
 //@   modifies *
 //@   ensures elems(data) == old(elems(data))
+//@   ensures err == nil ==> hasVarint(data) && dec(data, termL(data) + 1) <= 255
+//@   ensures err == nil && isSer(uint8(dec(data, termL(data) + 1))) ==> uint64(format) == dec(data, termL(data) + 1)
+//@   ensures !hasVarint(data) ==> err != nil
+
+//@ func DecompressAndLoad
+//@   modifies *
+//@   ensures elems(data) == old(elems(data))
+
+// decoders do not modify their input (assumed for every GenCodeCompatible implementation)
+//@ func GenCodeCompatible.GenCodeUnmarshal
+//@   trusted
+//@   modifies *
+//@   ensures elems(buf) == old(elems(buf))
+
+//@ func LoadAsFormat
+//@   modifies *
+//@   ensures elems(data) == old(elems(data))
+//@   ensures !isSer(format) || format == 1 ==> err != nil
+//@   at call json.Unmarshal assert format == 74
+//@   at call yaml.Unmarshal assert format == 89
+//@   at call cbor.Unmarshal assert format == 67
+//@   at call msgpack.Unmarshal assert format == 77
+//@   at call invoke.GenCodeUnmarshal assert format == 71
+
+//@ func Dump
+//@   modifies *
+//@   ensures r1 == nil ==> hasVarint(r0) && dec(r0, termL(r0) + 1) == uint64(old(resolvedSer(format))) && isSer(old(resolvedSer(format)))
+
+//@ func DumpIndent
+//@   modifies *
+//@   ensures r1 == nil ==> hasVarint(r0) && dec(r0, termL(r0) + 1) == uint64(old(resolvedSer(format))) && isSer(old(resolvedSer(format)))
+
+//@ func dumpWithoutIdentifier
+//@   modifies *
+//@   ensures r1 == nil ==> isSer(old(resolvedSer(format)))
+//@   ensures !(format == 0 || isSer(format)) ==> r1 != nil
+//@   at call json.Marshal assert format == 74
+//@   at call json.MarshalIndent assert format == 74
+//@   at call yaml.Marshal assert format == 89
+//@   at call cbor.Marshal assert format == 67
+//@   at call msgpack.Marshal assert format == 77
+//@   at call invoke.GenCodeMarshal assert format == 71
+
+//@ func MimeDump
+//@   modifies *
+//@   ensures err == nil ==> format != 0 && mimeType == FormatToMimeType[format]
+
+//@ func MimeLoad
+//@   modifies *
+//@   ensures err == nil ==> format != 0
